@@ -145,3 +145,56 @@ def zip_after_filter(fn):
                 # unless the other side is filtered by the same adaptor (then it is a different, unsupported idiom)
                 out.append((n, bad[0], cont))
     return out
+
+
+FULL_WALKS = {"columns", "rows", "genrows", "gencolumns", "axis_iter", "axis_iter_mut", "outer_iter", "outer_iter_mut", "iter", "iter_mut", "into_iter", "lanes", "rows_mut", "columns_mut"}
+
+
+def filtered_index_zip(fn):
+    """`idx.iter().zip(x.columns())` where `idx` is a *filtered* list of positions (`(0..n).filter(..).collect()`) and the other
+    side walks a whole container from its start: the k-th surviving position is paired with the k-th element, not with the
+    element at that position, as soon as one earlier position was filtered out.  Returns [(zip node, text of the walk)]."""
+    inits = {}
+    for n in walk(fn["body"]):
+        if n.get("k") == "LetStmt" and n.get("init") is not None and n["pat"].get("k") == "Bind":
+            inits[n["pat"]["local"]] = n["init"]
+    params = set(b["local"] for p_ in fn["params"] for b in pat_bindings(p_))
+
+    def source(e, depth=0):
+        """('range-filtered' | 'range' | 'walk:<name>' | None, adaptors) for an iterator expression"""
+        e = strip(e)
+        names = []
+        hops = 0
+        while isinstance(e, dict) and hops < 30:
+            hops += 1
+            k = e.get("k")
+            if k == "MethodCall":
+                names.append(e["name"])
+                e = strip(e["recv"])
+                continue
+            if k == "Ref" or (k == "Unary" and e["op"] == "*") or k == "Cast":
+                e = strip(e["e"])
+                continue
+            if k == "Call" and len(e["args"]) == 1:
+                e = strip(e["args"][0])
+                continue
+            if k == "Struct" and any(f_["name"] == "start" for f_ in e.get("fields") or []):
+                return ("range", names)
+            if k == "Path" and e.get("local") in inits and depth < 4:
+                kind, more = source(inits[e["local"]], depth + 1)
+                return (kind, names + more)
+            if k == "Path" and e.get("local") in params:
+                walkers = [x for x in names if x in FULL_WALKS]
+                return ("walk:" + (e.get("name") or "?"), names) if walkers else (None, names)
+            return (None, names)
+        return (None, names)
+    out = []
+    for n in walk(fn["body"]):
+        if n.get("k") != "MethodCall" or n["name"] != "zip" or len(n["args"]) != 1:
+            continue
+        for a, b in ((n["recv"], n["args"][0]), (n["args"][0], n["recv"])):
+            ka, na = source(a)
+            kb, nb = source(b)
+            if ka == "range" and any(x in REINDEXING for x in na) and kb and kb.startswith("walk:") and not any(x in REINDEXING for x in nb):
+                out.append((n, kb[5:]))
+    return out
